@@ -121,6 +121,10 @@ type world struct {
 	rts  []string
 	ops  []string            // state independent part of the operation alphabet
 	ops1 map[string][]string // per family: operations on its generation-1 strings (enabled once refreshed)
+	// opsAged: the logout-with-an-aged-hint histories (hintage_test.go); they carry their own clock jump, so the quick
+	// tier starts them from the states of the first clock bucket only
+	opsAged  []string
+	thorough bool
 	// dynamic issuer (issuer derived from the request): every request of the history names one of hosts
 	dyn   bool
 	via   string // "host": Host header (op.IssuerFromHost); "forwarded": Forwarded header (op.IssuerFromForwardedOrHost)
@@ -158,8 +162,12 @@ func newCfg() *refstore.Config {
 	return cfg
 }
 
-func (w *world) newRig() *rig.Rig {
-	o := rig.Opts{Cfg: newCfg()}
+func (w *world) newRig() *rig.Rig { return w.newRigOpt() }
+
+// newRigOpt: the provider of this part built with further constructor options (hintage_test.go: an id_token_hint
+// verifier that also looks at iat / auth_time).
+func (w *world) newRigOpt(opts ...op.Option) *rig.Rig {
+	o := rig.Opts{Cfg: newCfg(), Options: opts}
 	if w.dyn {
 		if w.via == "forwarded" {
 			o.IssuerFn = op.IssuerFromForwardedOrHost("")
@@ -168,7 +176,7 @@ func (w *world) newRig() *rig.Rig {
 		}
 	}
 	if w.lean {
-		return newLeanRig(o.Cfg, o.IssuerFn)
+		return newLeanRig(o.Cfg, o.IssuerFn, opts...)
 	}
 	return rig.MustNew(o)
 }
@@ -261,7 +269,7 @@ func jwtPayload(tok string) (map[string]any, []byte, bool) {
 }
 
 func build(t *testing.T, c *engine.Check, thorough bool, pt part) *world {
-	w := &world{byName: map[string]*tok{}, dyn: pt.dyn, via: pt.via, lean: pt.lean, hosts: []string{"a.example", "b.example"}, users: newCfg().Users, clients: newCfg().Clients}
+	w := &world{thorough: thorough, byName: map[string]*tok{}, dyn: pt.dyn, via: pt.via, lean: pt.lean, hosts: []string{"a.example", "b.example"}, users: newCfg().Users, clients: newCfg().Clients}
 	famNames, refreshable := pt.fams, pt.refreshable
 	for _, n := range famNames {
 		f := familyCatalog[n]
@@ -781,6 +789,17 @@ func build(t *testing.T, c *engine.Check, thorough bool, pt part) *world {
 				w.ops1["!"+f.name] = append(w.ops1["!"+f.name], strings.Join([]string{"rf", R, f.name}, "|"))
 			}
 		}
+		// logout with an id_token_hint of every age class, time passing between issuance and logout inside the operation
+		if !w.dyn {
+			for _, f := range w.fams {
+				if f.idt == "" {
+					continue
+				}
+				for _, af := range hintAgeForms(thorough, w.lean) {
+					w.opsAged = append(w.opsAged, strings.Join([]string{"ulu", R, f.name, af[0], af[1]}, "|"))
+				}
+			}
+		}
 	}
 	if w.dyn {
 		w.battery = []string{"ui|R|ja.at|hdr", "in|R|oa.at|api", "rv|R|g.garbagetxt|owner|none", "ex|R|ja.idt|subject|id_token|rtt-at", "es|R|ja|hint"}
@@ -962,6 +981,9 @@ func (w *world) enabled(s S) []string {
 		out = append(out, "adv")
 	}
 	out = append(out, w.ops...)
+	if w.thorough || s.Clock == 0 {
+		out = append(out, w.opsAged...)
+	}
 	for _, f := range w.fams {
 		if !f.refreshable {
 			continue
@@ -1115,6 +1137,9 @@ func (w *world) newStep(t *testing.T) func(int) func(S, string) (S, engine.Resul
 				if strings.HasSuffix(opl, "~p") || strings.HasPrefix(opl, "uku|") || strings.HasPrefix(opl, "uxu|") {
 					return w.exec(t, w.newRig(), s, opl)
 				}
+				if strings.HasPrefix(opl, "ulu|") { // provider of its own, hint verifier configured for the age class
+					return w.exec(t, w.newRigOpt(hintVerifierOpts(strings.Split(opl, "|")[3])...), s, opl)
+				}
 				post, res := w.exec(t, r, s, opl)
 				if res.Sig != "" {
 					return w.exec(t, w.newRig(), s, opl)
@@ -1205,10 +1230,10 @@ func (w *world) exec(t *testing.T, r *rig.Rig, s S, opl string) (S, engine.Resul
 	now := w.now(s)
 	l0 := w.liveness(s.St, now)
 	var resp *rig.Resp
-	doAt := func(clock int) doFn { // one request with the fake clock in bucket clock
+	doAtDur := func(at time.Duration) doFn { // one request with the fake clock at Epoch+at
 		return func(method, path string, form url.Values, hdr map[string]string) {
 			resp = nil
-			pan := engine.Bubble(t, w.clocks[clock], func() {
+			pan := engine.Bubble(t, at, func() {
 				resp = r.Do(router, w.req(host, method, path, form, hdr))
 			})
 			if resp == nil {
@@ -1218,6 +1243,7 @@ func (w *world) exec(t *testing.T, r *rig.Rig, s S, opl string) (S, engine.Resul
 			}
 		}
 	}
+	doAt := func(clock int) doFn { return doAtDur(w.clocks[clock]) } // ... in bucket clock
 	do := doAt(s.Clock)
 	var res engine.Result
 	var eff effect
@@ -1258,6 +1284,8 @@ func (w *world) exec(t *testing.T, r *rig.Rig, s S, opl string) (S, engine.Resul
 		res, eff, opKind, inClass = w.doUseKillUse(s, p, router, host, do, &resp)
 	case "uxu":
 		res, opKind, inClass = w.doUseExpireUse(s, p, router, doAt, &resp)
+	case "ulu":
+		res, eff, opKind, inClass = w.doAgedLogout(s, p, router, doAtDur, &resp)
 	default:
 		return s, engine.Bad("internal", "unknown-op", "C08/internal/unknown-op", opl)
 	}
@@ -1896,8 +1924,14 @@ func (w *world) doEndSession(s S, p []string, router, host int, do doFn, resp **
 		if hintLive {
 			eff.mustDead = keysOf
 			eff.free = siblings
+		} else if rule == "logout-expired-hint" {
+			// a genuine hint of this issuer whose exp has passed, answered like a successful logout: the provider took
+			// the hint for what names the session (its azp resolved the client), so the session it names is the one
+			// that ended. Refusing an expired hint is fine too (no redirect, nothing demanded).
+			eff.mustDead = keysOf
+			eff.free = siblings
 		} else if !noHint {
-			eff.free = append(keysOf, siblings...) // expired hint / mismatching client_id: honouring or ignoring the hint are both fine
+			eff.free = append(keysOf, siblings...) // mismatching client_id / hint of another issuer: honouring or ignoring the hint are both fine
 		}
 	} else if mismatch {
 		eff.free = append(keysOf, siblings...)
@@ -1913,7 +1947,7 @@ func (w *world) doEndSession(s S, p []string, router, host int, do doFn, resp **
 
 func TestCheck(t *testing.T) {
 	c := engine.Start(t, "C08")
-	c.SetRule("E2: breadth-first over (reference-storage clone, clock bucket [, first host served / both hosts served]); from every reachable state every operation of the alphabet {userinfo(s,channel), introspect(s,caller), revoke(s,by,hint), exchange(s,role,declared type), end_session(family,form), refresh(family), use-revoke-use(s), use-logout-use(s), use-expire-use(s)} x {Provider router, LegacyServer router} [x {host a, host b} for a provider with a request-derived issuer] x token-string alphabet (genuine access / refresh / id tokens, tampered, re-sealed, other-issuer, wrong key, algorithm-confused, edited, expired-but-signed, unissued, garbage, empty) plus the clock jump is executed once on the real handlers inside a synctest bubble; one exploration runs the provider over a storage variant that leaves the exp of JWT access tokens to the framework; response and storage effect judged by the liveness model; distinct = (oracle rule, observed outcome class)")
+	c.SetRule("E2: breadth-first over (reference-storage clone, clock bucket [, first host served / both hosts served]); from every reachable state every operation of the alphabet {userinfo(s,channel), introspect(s,caller), revoke(s,by,hint), exchange(s,role,declared type), end_session(family,form), refresh(family), use-revoke-use(s), use-logout-use(s), use-expire-use(s), age-logout-use(family, hint age {fresh, past exp, iat too old, auth_time too old, absent}, form)} x {Provider router, LegacyServer router} [x {host a, host b} for a provider with a request-derived issuer] x token-string alphabet (genuine access / refresh / id tokens, tampered, re-sealed, other-issuer, wrong key, algorithm-confused, edited, expired-but-signed, unissued, garbage, empty) plus the clock jump is executed once on the real handlers inside a synctest bubble; one exploration runs the provider over a storage variant that leaves the exp of JWT access tokens to the framework; response and storage effect judged by the liveness model; distinct = (oracle rule, observed outcome class)")
 	c.Assume("refstore implements the documented storage contract (liveness, subject and audience checks; RevokeToken refuses other clients, accepts unknown tokens) and is part of the trusted base",
 		"the resource server 'api' is put into the audience of every access token by editing the stored token after issuance (storage policy), the JWT aud claim is not edited",
 		"strings signed with the provider's own signing key by the harness (other issuer / expired / unissued jti / other subject) stand for a multi-tenant or key-sharing deployment; none of them names a live (issuer, jti, subject, exp) tuple; declared as id_token (which nobody tracks) the unexpired right-issuer ones are left open",
@@ -1923,6 +1957,7 @@ func TestCheck(t *testing.T) {
 		"lean-storage part: a JWT signed by the provider's key whose exp has passed is presented to the single-request operations as a twin (identical header and payload, fresh ECDSA signature of the same key) that no request of the process has carried before, so that 'issue - expire - first use' is judged independently of what other explored states presented earlier; only refusal is ever demanded of a twin; the history 'use while valid - expire - use' is the operation use-expire-use, which presents the string as issued on a provider of its own and is complete in itself",
 		"opaque token ciphertexts use the provider's random IVs; every tampered string is decrypted when the alphabet is built and classified by what it really decrypts to (names a live id / empty id / noise), so verdicts do not depend on the IV",
 		"refstore takes an empty actor token id for 'no actor token': a string that decrypts to ':<subject>' (empty id, which the library parses as a well-formed opaque token) is left open in the actor role of token exchange and must be refused everywhere else",
+		"end_session: a genuine id_token_hint of the right issuer that the hint verifier calls expired (exp passed; iat / auth_time older than a configured max age) may be refused; when the provider answers such a logout with its redirect, the session the hint names (sub, azp) counts as terminated: its tokens are dead in the store and honoured nowhere afterwards",
 		"id tokens are tracked by nobody (refstore vouches for every id token the library verified): an unexpired id token must be accepted as exchange subject / actor while its session still has a token in the store, is left open afterwards, and must be refused once expired",
 		"dynamic-issuer parts: the provider object is rebuilt for every transition and re-serves the recorded path to the state before the judged request, so memory inside the provider that stems from earlier requests of the history is in effect; the abstract state carries (host of the first request, both hosts served) as the key such memory could have; opaque strings (opaque access token, refresh token) presented under the other host are left open while live, strings with an iss claim (JWT access token, id token) must not be honoured there")
 	thorough := c.Thorough()
